@@ -87,6 +87,12 @@ def f32_text(bits):
     return s + "f"
 
 
+def _root_name(e):
+    while isinstance(e, dict) and e.get("e") != "var":
+        e = e.get("a")
+    return e["n"] if isinstance(e, dict) else ""
+
+
 class Gen:
     def __init__(self, rng, opts=None):
         self.rng = rng
@@ -214,6 +220,11 @@ class Gen:
         if depth <= 0 or rng.chance(1, 5):
             ls = self.leaves(env, t)
             if ls and rng.chance(4, 5):
+                # locals first, half of the time: otherwise the many paths into the module-scope buffers crowd
+                # them out and a function's own variables are written but hardly ever read
+                loc = [l for l in ls if _root_name(l).startswith("x_")]
+                if loc and rng.chance(1, 2):
+                    return rng.choice(loc)
                 return rng.choice(ls)
             return self.construct(env, t, 0)
         prods = []
@@ -712,7 +723,23 @@ class Gen:
             fenv[pn] = (t, "let")
         ret = self.value_type(1) if rng.chance(3, 4) else None
         self._idx_sources = [lit("u32", rng.below(16))] + [{"e": "var", "n": p["n"]} for p in params if p["t"] == "u32"]
-        body = self.block(fenv, rng.range(1, 4), 2, False, ret)
+        pro = []
+        if self.o["pointers"] and rng.chance(1, 2):
+            # a local and a pointer-let to it, early in the helper: the low-numbered spellings are the ones other
+            # functions bind to plain `var`s and `let`s, so per-function binding-kind state is exercised
+            for _ in range(rng.below(2)):
+                t0 = self.scalar()
+                n0 = self.fresh("l")
+                pro.append({"s": "let", "n": n0, "t": t0, "e": self.expr(fenv, t0, 1)})
+                fenv[n0] = (t0, "let")
+            t1 = self.value_type(1)
+            n1 = self.fresh("v")
+            pro.append({"s": "var", "n": n1, "t": t1, "e": self.expr(fenv, t1, 1)})
+            fenv[n1] = (t1, "var")
+            n2 = self.fresh("l")
+            pro.append({"s": "let", "n": n2, "t": ["ptr", "function", t1], "e": {"e": "addr", "a": {"e": "var", "n": n1}}})
+            fenv[n2] = (["ptr", "function", t1], "let")
+        body = pro + self.block(fenv, rng.range(1, 4), 2, False, ret)
         if ret is not None:
             body.append({"s": "return", "e": self.expr(fenv, ret, 2)})
         self.funcs.append({"n": name, "params": params, "ret": ret, "body": body})
